@@ -19,10 +19,10 @@ GPfxOf(x) == CASE x = 1 -> {<<>>, <<0>>, <<0, 255>>, <<1>>, <<2>>, <<255>>, <<25
                [] x = 3 -> {<<>>, <<0>>, <<0, 255>>, <<1>>, <<255>>, <<255, 255>>}
 \* medium universe (edges, thorough)
 EKeysOf(x) == CASE x = 1 -> {<<0>>, <<0, 255>>, <<1>>, <<255>>}
-                [] x = 2 -> {<<0>>, <<255>>}
+                [] x = 2 -> {<<255>>}
                 [] x = 3 -> {<<0, 255>>, <<255, 255>>}
 EPfxOf(x) == CASE x = 1 -> {<<>>, <<0>>, <<0, 255>>, <<1>>, <<255>>}
-               [] x = 2 -> {<<>>, <<0>>, <<255>>}
+               [] x = 2 -> {<<>>, <<255>>}
                [] x = 3 -> {<<>>, <<0>>, <<255, 255>>}
 \* small universe (edges, quick)
 QKeysOf(x) == CASE x = 1 -> {<<0>>, <<0, 255>>, <<1>>}
@@ -58,13 +58,15 @@ RNext ==
   \E x \in {Pick(Idx)} : \E k \in {Pick(KeysOf(x))}, k2 \in {Pick(KeysOf(x))}, v \in {Pick(Vals)}, pfx \in {Pick(PfxOf(x))},
      hs \in {Pick(BOOLEAN)}, skip \in {Pick(BOOLEAN)}, rev \in {Pick(BOOLEAN)}, ka \in {Pick(IterKinds)}, ks \in {Pick(KeyLists(x))},
      fv \in {Pick(FVals)}, sv \in {Pick(SVals)}, j \in {Pick(VecIdx)} :
+     \E pk \in {Pick({p \in PfxOf(x) : IsPrefixOf(p, k)})}, pk2 \in {Pick({p \in PfxOf(x) : IsPrefixOf(p, k2)})} :
        \/ Put(x, k, v) \/ Put(x, k2, v) \/ BPut(x, k, v) \/ BPut(x, k2, v) \/ Del(x, k) \/ BDel(x, k2)
        \/ Commit \/ Reopen
        \/ Get(x, k) \/ HasKey(x, k) \/ HasMulti(x, ks) \/ Fill(x, ks) \/ Count(x) \/ CountFrom(x, k)
        \/ FirstItem(x, pfx) \/ LastItem(x, pfx)
-       \/ Iterate(x, pfx, IF hs THEN k ELSE <<>>, hs, skip, rev, ka[1], ka[2])
-       \/ Iterate(x, <<>>, IF hs THEN k2 ELSE <<>>, hs, skip, ~rev, ka[1], ka[2])
-       \/ Iterate(x, pfx, k2, TRUE, ~skip, rev, "none", 0)
+       \/ Iterate(x, pfx, <<>>, FALSE, skip, rev, ka[1], ka[2])
+       \/ Iterate(x, pk, k, TRUE, skip, rev, ka[1], ka[2])
+       \/ Iterate(x, <<>>, k2, TRUE, skip, ~rev, ka[1], ka[2])
+       \/ Iterate(x, pk2, k2, TRUE, ~skip, rev, "none", 0)
        \/ (Mode # "index" /\ \/ UGet \/ UPut(fv) \/ UBPut(fv) \/ UDec \/ UBDec \/ (u64 < MaxField /\ (UInc \/ UBInc))
                              \/ SGet \/ SPut(sv) \/ SBPut(sv)
                              \/ VGet(j) \/ VPut(j, fv) \/ VBPut(j, fv) \/ VDec(j) \/ VBDec(j) \/ (vec[j] < MaxField /\ (VInc(j) \/ VBInc(j))))
